@@ -408,6 +408,11 @@ func udpKeyConfigs() []srv.Cfg {
 		srv.Cfg{Legacy: []srv.Legacy{{Key: universe[0], Port: 9005}, {Key: universe[1], Port: 9006}}},
 		srv.Cfg{Legacy: []srv.Legacy{{Key: universe[3], Port: 9007}, {Key: universe[0], Port: 9005}, {Key: universe[4], Port: 9007}, {Key: universe[1], Port: 9006}}},
 	)
+	// two services that share a key
+	out = append(out, srv.Cfg{Services: []srv.Svc{
+		{Listeners: udp, Keys: keys(1, 0)},
+		{Listeners: []srv.Ln{{Type: "udp", Addr: "127.0.0.1:9001"}}, Keys: keys(0, 3)},
+	}})
 	// two services, the second one repeating a secret of the first under another cipher
 	out = append(out, srv.Cfg{Services: []srv.Svc{
 		{Listeners: udp, Keys: keys(1, 0)},
